@@ -29,6 +29,7 @@ type LiveOpts struct {
 	Restarts    bool
 	CacheFaults bool
 	SvcFaults   bool
+	Deletes     bool // secrets are deleted at the service and put again
 	Close       bool
 	Skew        bool
 	MaxSteps    int
@@ -61,6 +62,7 @@ type builtVal struct {
 	from    []byte
 	version uint32
 	closed  int
+	plain   bool // handed out as a plainVal: no Close method
 	mu      *sync.Mutex
 }
 
@@ -68,16 +70,35 @@ func (b *builtVal) Close() error { b.mu.Lock(); b.closed++; b.mu.Unlock(); retur
 
 var _ io.Closer = (*builtVal)(nil)
 
+// uval is the (interface) type of the updaters' values: some of the values a
+// builder returns implement io.Closer (*builtVal), some do not (plainVal).
+type uval interface{ core() *builtVal }
+
+func (b *builtVal) core() *builtVal { return b }
+
+// plainVal is a built value that has no Close method.
+type plainVal struct{ b *builtVal }
+
+func (p plainVal) core() *builtVal { return p.b }
+
+func coreOf(v uval) *builtVal {
+	if v == nil {
+		return nil
+	}
+	return v.core()
+}
+
 type updState struct {
 	id       int
 	name     string
-	u        *setec.Updater[*builtVal]
+	u        *setec.Updater[uval]
 	created  int64  // stamp at NewUpdater return
 	invoked  int64  // stamp at NewUpdater invoke
 	att      uint32 // version the builder was last handed (built or rejected)
 	since    int64  // call stamp of the previous Get (or of NewUpdater)
 	builds   []*builtVal
 	failOn   map[uint32]bool // builder fails on these versions
+	plainOn  map[uint32]bool // builder returns a value without Close for these versions
 	cur      *builtVal
 	busy     bool
 	active   []*bool // overlap flags of the Gets in flight
@@ -722,6 +743,14 @@ func (l *live) afterRound(knownAtStart map[string]bool, _ int64, end int64, err 
 					later = true
 				}
 			}
+			// ... or a value some later request obtained: its round may have
+			// installed it in memory already and be parked at its cache write
+			// (installs are read off the cache documents)
+			for _, r2 := range w.Svc.ReqsSince(callInvoke) {
+				if r2.Name == r.Name && r2.Served == gv && r2.End > r.End {
+					later = true
+				}
+			}
 			if ok && gv != r.Served && !later {
 				l.fail("read-after-poll", "the poll led by this Refresh fetched version %d of %q and completed without error, but the handle serves version %d", r.Served, r.Name, gv)
 			}
@@ -792,6 +821,18 @@ func (l *live) judgeCoalescing() {
 func (l *live) svcChange() {
 	names := l.w.Svc.Names()
 	n := names[l.t.Choice(len(names))]
+	if l.o.Deletes {
+		// an operator deletes a secret that stores still use, and later puts
+		// it again (numbering continues)
+		if del := l.w.Svc.Deleted(); len(del) > 0 && l.t.Bool(1, 3) {
+			v := l.w.Svc.Undelete(del[0])
+			l.w.Tracef("service: %q put again, active v%d", del[0], v)
+			return
+		} else if len(del) == 0 && l.t.Bool(1, 8) && l.w.Svc.Delete(n) {
+			l.w.Tracef("service: %q deleted", n)
+			return
+		}
+	}
 	if l.t.Bool(1, 4) {
 		if v := l.w.Svc.ActivateOld(n, l.t.Choice(8)); v != 0 {
 			l.w.Tracef("service: %q active -> v%d (backwards)", n, v)
@@ -992,7 +1033,7 @@ func (l *live) newUpdater() {
 	} else {
 		return
 	}
-	us := &updState{id: len(l.updaters), name: n, failOn: map[uint32]bool{}}
+	us := &updState{id: len(l.updaters), name: n, failOn: map[uint32]bool{}, plainOn: map[uint32]bool{}}
 	lat := uint32(0)
 	if v, _ := w.Svc.Active(n); v != 0 {
 		lat = v
@@ -1002,7 +1043,21 @@ func (l *live) newUpdater() {
 			us.failOn[lat+1+uint32(l.t.Choice(4))] = true
 		}
 	}
-	build := func(b []byte) (*builtVal, error) {
+	if l.t.Bool(1, 6) {
+		// the builder rejects the value the secret has right now: NewUpdater fails
+		us.failOn[lat] = true
+	}
+	// values without a Close method among those with one (a "disabled"
+	// implementation of the interface, say): often the very first
+	if l.t.Bool(1, 3) {
+		us.plainOn[lat] = true
+	}
+	for k := 0; k < 2; k++ {
+		if l.t.Bool(1, 4) {
+			us.plainOn[lat+1+uint32(l.t.Choice(4))] = true
+		}
+	}
+	build := func(b []byte) (uval, error) {
 		us.nBuildFn++
 		dn, dv, ok := Decode(b)
 		if ok {
@@ -1018,10 +1073,13 @@ func (l *live) newUpdater() {
 		}
 		l.bvMu.Lock()
 		l.nBuilt++
-		bv := &builtVal{id: l.nBuilt, from: b, version: dv, mu: &l.bvMu}
+		bv := &builtVal{id: l.nBuilt, from: b, version: dv, mu: &l.bvMu, plain: us.plainOn[dv]}
 		us.builds = append(us.builds, bv)
 		us.cur = bv // the value only ever changes through a successful build
 		l.bvMu.Unlock()
+		if bv.plain {
+			return plainVal{bv}, nil
+		}
 		return bv, nil
 	}
 	ctx, _ := w.Ctx(0)
@@ -1097,7 +1155,7 @@ func (l *live) updaterGet() {
 		call := w.Stamp()
 		nb := us.nBuildFn
 		prevCur := us.cur
-		got := us.u.Get()
+		got := coreOf(us.u.Get())
 		gerr := us.u.Err()
 		ret := w.Stamp()
 		l.tasksBusy--
@@ -1236,6 +1294,8 @@ func (l *live) judgeClosers() {
 			switch {
 			case bv == us.cur && bv.closed != 0:
 				l.fail("upd-close", "updater %d (%q): the current value (built from v%d) was closed %d times", us.id, us.name, bv.version, bv.closed)
+			case bv.plain:
+				// no Close method: nothing to close
 			case bv != us.cur && bv.closed != 1:
 				l.fail("upd-close", "updater %d (%q): the replaced value built from v%d was closed %d times, want exactly once", us.id, us.name, bv.version, bv.closed)
 			}
@@ -1347,6 +1407,7 @@ func (l *live) probeRestart() {
 		return
 	}
 	w := l.w
+	w.Cache.checkRetained()
 	data := w.Cache.LastGood()
 	if data == nil {
 		return
@@ -1443,6 +1504,9 @@ func (l *live) finalConverge() {
 	w := l.w
 	w.Svc.Script = map[string][]Outcome{}
 	w.Svc.Default = Outcome{}
+	for _, n := range w.Svc.Deleted() {
+		w.Svc.Undelete(n)
+	}
 	w.Cache.mu.Lock()
 	w.Cache.FailWrites = map[int]bool{}
 	w.Cache.mu.Unlock()
@@ -1511,7 +1575,7 @@ func (l *live) finalConverge() {
 				continue
 			}
 			av, _ := w.Svc.Active(us.name)
-			got := us.u.Get()
+			got := coreOf(us.u.Get())
 			if got != nil && got.version != av && !us.failOn[av] {
 				l.fail("upd-lost", "after a successful refresh with a healthy service, updater %d on %q still returns the value built from version %d; the service's active version is %d", us.id, us.name, got.version, av)
 			}
